@@ -19,7 +19,8 @@ from . import common
 from . import integ_common as ic
 
 PROP = "C02"
-LEAN_MODULES = ["MiciVerif.Props.C02", "MiciVerif.Props.C02Implicit"]
+LEAN_MODULES = ["MiciVerif.Props.C02", "MiciVerif.Props.C02Implicit", "MiciVerif.Props.C02S", "MiciVerif.Props.C06S"]
+GENERATED = ["integ_steps"]   # tools/extractors/integ_steps.py -> Generated/IntegSteps.lean (step structure of every class)
 LEAN_EXTRA = ["MiciVerif.Model.Integrators", "MiciVerif.Lemmas.IntegratorsExec", "MiciVerif.Proto", "MiciVerif.Model.IntegratorsImplicit"]
 
 
@@ -191,10 +192,22 @@ def _make_case(rng, ikind, skind, n, *, tier="easy", populate=None):
 
 
 def direct_oracles(ctx):
+    from . import c06 as _c06
+
     rng = common.rng_for(ctx, 2)
     ic.selfcheck(common.rng_for(ctx, 99), 3)
     benign: dict = {}
     plan = []
+    # a broken structure obligation (Props/C06S.lean, C02S.lean: generated step tables = structure of the hand model)
+    # multiplies the search for the classes whose table changed
+    escalate, esc_kinds, esc_names = _c06.broken_structure_tie(ctx)
+    escalate = escalate or any((not o["ok"]) and ".C02S." in o["theorem"] for o in ctx.obligations)
+    if escalate:
+        if not esc_kinds:
+            esc_kinds = list(ic.INTEGRATOR_KINDS)
+        ctx.count("search_escalated:" + ",".join(esc_kinds))
+        ctx.extra["structure_tie_broken"] = {"kinds": esc_kinds, "generated_definitions_differing": esc_names}
+    mult = lambda ik: (3 if escalate and ik in esc_kinds else 1)  # noqa: E731
     for ikind in ic.INTEGRATOR_KINDS:
         sk = ic.compatible_system_kinds(ikind)
         if ikind in ic.EXPLICIT_KINDS:
@@ -204,18 +217,18 @@ def direct_oracles(ctx):
         else:
             reps = ctx.n(60, 600)
         for skind in sk:
-            for r in range(reps):
+            for r in range(reps * mult(ikind)):
                 plan.append((ikind, skind, (1, 2, 5)[r % 3], "easy"))
     for ikind in ic.IMPLICIT_KINDS:
         for skind in ic.RIEMANNIAN:
-            for r in range(ctx.n(30, 300)):
+            for r in range(ctx.n(30, 300) * mult(ikind)):
                 plan.append((ikind, skind, (1, 2)[r % 2], "hard"))
-            for r in range(ctx.n(20, 200)):
+            for r in range(ctx.n(20, 200) * mult(ikind)):
                 plan.append((ikind, skind, (1, 2)[r % 2], "loose"))
     for skind in ic.CONSTRAINED:
-        for r in range(ctx.n(500, 5000)):
+        for r in range(ctx.n(500, 5000) * (2 if mult("constrained_leapfrog") > 1 else 1)):
             plan.append(("constrained_leapfrog", skind, (1, 1, 2)[r % 3], "hard"))
-        for r in range(ctx.n(100, 1000)):
+        for r in range(ctx.n(100, 1000) * mult("constrained_leapfrog")):
             plan.append(("constrained_leapfrog", skind, (1, 2)[r % 2], "loose"))
     for ikind, skind, n, tier in plan:
         hard = tier != "easy"
@@ -244,6 +257,8 @@ def direct_oracles(ctx):
             if status.startswith("error:"):
                 b["raised"].append((case, status))
         for sig, what in fails:
+            if escalate and ikind in esc_kinds:
+                what += _c06.tie_note(ctx, esc_kinds, esc_names)
             ctx.violation(sig, what, case)
         # coefficients of live composition integrators
         if ikind in ("symcomp", "bcss2", "bcss3", "bcss4"):
@@ -253,6 +268,8 @@ def direct_oracles(ctx):
                 cf = [(f"{cls} coefficients raise", f"{type(e).__name__}: {e}")]
             ctx.count("coefficients_checked")
             for sig, what in cf:
+                if escalate and ikind in esc_kinds:
+                    what += _c06.tie_note(ctx, esc_kinds, esc_names)
                 ctx.violation(sig, what, {**case, "check": "coefficients"})
     for k, v in ic.STATS.items():
         ctx.count("lib:" + k, v)
@@ -331,7 +348,18 @@ LEVEL_TEXT = (
     '(gl*_checked, imStepAdj_checked, conInner_checked, solveDirect_returns); with an exact solver and exact check the step '
     'with -eps from the result RETURNS and gives back exactly the start (glStep_reverse_exact, glSteps_reverse_exact, '
     'imStep_reverse_exact, conStep_reverse_exact for any number of inner steps, constrained_mom_reverse / euclidean_momrev: '
-    'position reversal implies momentum reversal). Tie: exact-rational model vs real LeapfrogIntegrator / '
+    'position reversal implies momentum reversal). CHAINED BOUND (Props/C02Implicit.lean, section Chained reversal bound): in a pseudo-metric space, reverse step '
+    'L-Lipschitz and every forward/reverse pair within delta on the states visited => n forward + n reverse steps return within '
+    'delta (1 + L + ... + L^(n-1)) (chain_reverse_bound relational core for partial steps, iterate_reverse_bound, '
+    'steps_reverse_bound in the API form n steps / dir *= -1 / n steps, res_steps_reverse_bound and the instances '
+    'glSteps_/imSteps_/conSteps_reverse_bound; sharp, see the example). STRUCTURE TIE (Props/C06S.lean + C02S.lean, re-decided on '
+    'every run against Generated/IntegSteps.lean regenerated from integrators.py by tools/extractors/integ_steps.py): the '
+    'call lists, helper descriptors (incl. each reverse check: adjoint helper on a copy with the NEGATED time step, compared '
+    'component, norm > tol -> NonReversibleStepError) and Integrator.step equal the structure of the hand models; running the '
+    'generated tables is leapfrog / mkSymComp.stepT / glStep / imStep / conStep, hence reversible (leapfrog_generated_reverse, '
+    'symComp_generated_reverse for every free list, implicitLeapfrog_/implicitMidpoint_/constrainedLeapfrog_generated_reverse_exact); '
+    'every implicit sub-step is reverse-checked and the arrangement is an adjoint-paired palindrome (*_consistent). '
+    'Tie: exact-rational model vs real LeapfrogIntegrator / '
     'SymmetricCompositionIntegrator (0-6 free coefficients, both initial flows) / BCSS2-4 on Euclidean and Gaussian-split '
     'systems (4 metric types incl. implicit identities, quadratic/cubic/quartic targets), states after k steps and after '
     "k forward-flip-k back, live coefficient lists compared exactly; implicit leapfrog / midpoint with the model's mirror of "
@@ -344,9 +372,10 @@ LEVEL_NOTE = (
     'Trusted: Lean kernel, axioms {propext, Classical.choice, Quot.sound}; the harness, its generators and tolerances; '
     'NumPy/LAPACK arithmetic. Assumed as hypotheses (hold for the real functions / documented solver contract): cos/sin '
     'identities; Q orthogonal; exact solver `solve f x = ok y -> f y = y` and exact check for the *_reverse_exact theorems; '
-    'projection solver of the form Phi2(t) o Pi(lambda) for euclidean_momrev. NOT proved: the chained n-step reversal bound '
-    'with non-zero tolerances (needs Lipschitz data of user functions; statement kept as glStep_reverse_partial comment) - '
-    'measured by the direct oracle instead. Rounding is outside the theorems (model is exact; compared at 1e-9 relative). '
+    'projection solver of the form Phi2(t) o Pi(lambda) for euclidean_momrev; for the chained n-step bound the Lipschitz constant L '
+    'of the reversed step and the per-pair defect delta are HYPOTHESES (they depend on the user functions, step size and '
+    'tolerances: not derived from the sub-step checks; the n-step residual is also measured by the direct oracle). Trusted: the '
+    'translator plug-in integ_steps.py and the interpretation of its tables (Lemmas/IntegSteps.lean). Rounding is outside the theorems (model is exact; compared at 1e-9 relative). '
     'Object aliasing (`state.copy()`) is observed by the harness, not modelled.'
 )
 TECHNIQUE = 'Lean 4 theorems (list induction, Except-monad case analysis) + exact-rational model/implementation correspondence + reversal and input-immutability oracles on the real code'
